@@ -262,6 +262,10 @@ struct Report
   void run_stream(const std::string & stream, long n, const std::function<void(Rng &, long)> & fn)
   {
     if (!stream_selected(stream)) return;
+    if (args.skip.count(stream + ":*")) {
+      counters["stream_skipped_after_aborts"]++;
+      return;
+    }
     cur_stream = stream;
     for (long i = 0; i < n; ++i) {
       if (args.only_case >= 0) {
